@@ -1,11 +1,10 @@
-"""C02 — paths built from beacons are accepted hop by hop and reach the destination.
+"""C03 — reversed paths carry replies back to the source.
 
-Exhaustive: Dataplane.tla (honest mode) — beaconing by definition with symbolic MACs, path
-combination by definition, RouterStep = transcription of the router; invariant: every combination of
-every topology family is forwarded along its interface list and delivered.
-Binding: real DefaultExtender beacons -> real combinator.Combine (all identical constructions) ->
-real routers (router export H1), every (src, dst, path) of T1-T3 plus seeded random topologies;
-DataplaneTrace.tla (Prop = C02) judges every router visit against the path metadata and topology."""
+Same journeys as C02; at the destination the real reversal code (snet.DefaultReplyPather.ReplyPath,
+alternately scion.Raw.Reverse) is applied to the delivered bytes, addresses are swapped and the reply is
+walked through the real routers.  DataplaneTrace.tla (Prop = C03) demands acceptance at every router,
+the request's interfaces in reverse order, delivery at the original source host.  The exhaustive model
+(Dataplane.tla) contains HostReverse (DataplaneOps!Reverse) and the reply leg."""
 import _dp
 
 
@@ -18,12 +17,12 @@ def run(c):
         trace = c.scratch + "/dp.ndjson"
         c.run_driver(drv, ["-mode", "honest", "-out", trace, "-topos", "T1,T2,T3",
                            "-random", 40 if c.thorough else 3])
-    _dp.validate(c, "C02", trace)
+    _dp.validate(c, "C03", trace)
     _dp.coverage(c, trace, lambda r, evs: r["mode"] == "honest" and any(
-        e["ev"] == "hop" and e["j"] == "req" for e in evs),
+        e["ev"] == "hop" and e["j"] == "rep" for e in evs),
         "every path returned by the real combinator (findAllIdentical) for every ordered AS pair of "
         "T1-T3 and a sample for seeded random topologies, walked through the real routers; a journey "
-        "is non-trivial if at least one router processed the request; distinct = distinct (topology, "
+        "is non-trivial if at least one router processed the reply; distinct = distinct (topology, "
         "segment lengths, ConsDir/Peer flags, path type) shapes")
     c.assumptions += [
         "packets are injected into the real packet processors through the router export (no sockets)",
